@@ -87,6 +87,9 @@ type Session struct {
 	SessionID string
 	Class     []byte
 
+	// tornDown is set once the session's resources have been released
+	tornDown bool
+
 	mu sync.RWMutex
 }
 
